@@ -351,6 +351,7 @@ func rulesC16(c *Ctx) {
 
 	// ---- (e) bounds
 	c16Bounds(c, decs)
+	rulesC16Round2(c)
 }
 
 // derivedFromParam: v is read out of the named parameter, directly or as an
